@@ -414,7 +414,46 @@ func decorate(r *rand.Rand, c *Case, o genOpts, nslots int) {
 		if o.mixedK0 {
 			// another class defines k0 as an ordinary slot: below a class-allocated
 			// definition it makes k0 local, above one it is hidden by it (listed finding)
+			// first choice: a class below (2 of 3) or above the class that allocates
+			// k0 in the class, so that the two definitions meet on a precedence list
+			anc := map[int]bool{}
+			var up func(k int)
+			up = func(k int) {
+				for _, s := range c.Classes[k].Supers {
+					if !anc[s] {
+						anc[s] = true
+						up(s)
+					}
+				}
+			}
+			up(a)
+			var above, below []int
+			for k := 0; k < n; k++ {
+				if anc[k] {
+					above = append(above, k)
+					continue
+				}
+				for a2 := range anc {
+					delete(anc, a2)
+				}
+				up(k)
+				if anc[a] {
+					below = append(below, k)
+				}
+				for a2 := range anc {
+					delete(anc, a2)
+				}
+				up(a)
+			}
 			e := r.IntN(n)
+			switch pick := r.IntN(3); {
+			case pick < 2 && 0 < len(below):
+				e = below[r.IntN(len(below))]
+			case 0 < len(above):
+				e = above[r.IntN(len(above))]
+			case 0 < len(below):
+				e = below[r.IntN(len(below))]
+			}
 			has := false
 			for _, sd := range c.Classes[e].Slots {
 				has = has || sd.Name == "k0"
@@ -737,7 +776,7 @@ func gen(r *rand.Rand, i int, tier string) Case {
 	o.redef2 = o.redef && !o.redefMid && r.IntN(100) < 30
 	o.failed = r.IntN(100) < 20
 	o.twice = r.IntN(100) < 8
-	o.mixedK0 = o.shared && r.IntN(100) < 30
+	o.mixedK0 = o.shared && r.IntN(100) < 40
 	o.k0arg = o.shared && r.IntN(100) < 40
 	c := genDAG(r, o)
 	switch r.IntN(20) {
